@@ -374,7 +374,18 @@ def rule_lin(ctx: Ctx) -> RuleReport:
         else:
             rep.ok({"recursion_on": detail, "kind": kind})
     # (b,c) exactly once and in order, per branch
+    KNOWN_OTHER = {"t", "oMath", "oMathPara"}
     for tag, st in branches:
+        if tag not in CHILD_ORDER and tag not in KNOWN_OTHER:
+            # a branch for a tag outside the confirmed inventory: it must still convert every child (the default branch does),
+            # i.e. iterate the element itself; picking children by name drops the others (w:t inside m:r, nested operands)
+            generic = any(isinstance(x, (ast.For, ast.comprehension)) and isinstance(x.iter, ast.Name) and x.iter.id in {a.arg for a in pe.node.args.args} for n in st.body for x in ast.walk(n))
+            if generic:
+                rep.ok({"branch": tag, "children": "all, in order"})
+            else:
+                picks = [norm(x) for n in st.body for x in ast.walk(n) if isinstance(x, ast.Call) and isinstance(x.func, ast.Attribute) and x.func.attr in ("find", "findall", "iter")]
+                rep.fail(Finding("C19-LIN", OMML, pe.qual, f"m:{tag}: children picked by name", f"the branch for m:{tag} converts only the children it names ({'; '.join(picks[:3])[:120]}) instead of every child: anything else inside m:{tag} (w:t runs, nested structures) produces no output", line=st.lineno))
+            continue
         if tag not in CHILD_ORDER:
             continue
         body = st.body
@@ -391,6 +402,12 @@ def rule_lin(ctx: Ctx) -> RuleReport:
                     elif isinstance(v, ast.ListComp) and _is_pe_call(v.elt):
                         list_operands[a.targets[0].id] = v
         if tag == "m":
+            # no cell and no row is filtered out: a dropped (empty) cell shifts every later operand of its row one column to the left
+            filt = [x for n in body for x in ast.walk(n) if (isinstance(x, (ast.ListComp, ast.GeneratorExp)) and any(g.ifs for g in x.generators)) or (isinstance(x, ast.Call) and isinstance(x.func, ast.Name) and x.func.id == "filter")]
+            filt += [x for n in body for x in ast.walk(n) if isinstance(x, ast.If) and any(isinstance(y, ast.Continue) for y in ast.walk(x))]
+            if filt:
+                rep.fail(Finding("C19-LIN", OMML, pe.qual, "matrix cells filtered: " + norm(filt[0])[:90], f"the matrix branch drops cells or rows (`{short(filt[0], 70)}`): the remaining operands move to other columns (a diagonal matrix becomes a column of values)", line=filt[0].lineno))
+                continue
             # rows.append(" & ".join(cells)) inside the loop over mr
             ok_rows = any(isinstance(n, ast.For) and "findall" in norm(n.iter) for n in body)
             ret = [n for n in ast.walk(st) if isinstance(n, ast.Return)]
